@@ -5,7 +5,7 @@
 (* in every state.  Also emits the histories as behaviours to replay into the real code. *)
 EXTENDS Naturals, Sequences, FiniteSets, TLC, Json
 
-CONSTANTS NF, MaxLen, Kinds, MaxHunks, MaxBody, Preamble, MaxConf, Buf, Fixes, ReplayLen
+CONSTANTS NF, MaxLen, Kinds, MaxHunks, MaxBody, Preamble, MaxConf, Buf, Fixes, ColorOnly, ReplayLen
 
 VARIABLES hist, gs, s
 
@@ -28,6 +28,9 @@ RowsOnceInOrder == O!SameRowsOpt(O!Expected(hist), Final) \/ Cex("RowsOnceInOrde
 
 \* C15: every hunk line is highlighted in the language its own file's name selects
 LanguageByName == O!LanguageByName(hist, I!Finish(s).sy) \/ Cex("LanguageByName")
+
+\* C02: in color-only mode the output has one row per input line, in order
+LineForLine == ~ColorOnly \/ O!COLines(hist, Final) \/ Cex("LineForLine")
 
 \* C11: bounded lag and never revised
 Lag == O!LagOK(hist, s.w, Buf) \/ Cex("Lag")
